@@ -13,6 +13,10 @@
  *   ctl multi   (counter)   guarded dep + unconditional dep on the same flow: 1 or 2 releases
  *   ctl gather  (counter)   ctl_gather_nb(k) = 1..3 releases on the same flow
  *   write-only NEW          no release, flow tagged HAS_IN_DEPS without dep_in
+ *   ctl alt                 two exclusively guarded deps on one CTL flow (g ? A : nothing; !g ? B : nothing): one release,
+ *                           the ACTIVE dep being the second one when g is false
+ *   ctl alt3                g ? A ; (!g && h) ? B ; otherwise no control: 1 or 0 releases (mask: bit from check_IN)
+ *   data alt                two exclusively guarded task-fed deps on one data flow: one release
  * Several instances of T live in one run (colliding hash keys, hash-table resize, mempool
  * recycling of hashed dependencies).  Each plan op is ONE release of one still missing input of
  * one instance, executed by its sim-thread either as find_deps + update_deps or as a whole
@@ -43,6 +47,8 @@ typedef struct c07_tp_s {
 
 #define DECLCOND(j) int32_t c07_cond_##j(const parsec_taskpool_t *tp, const parsec_assignment_t *l);
 DECLCOND(0) DECLCOND(1) DECLCOND(2) DECLCOND(3) DECLCOND(4) DECLCOND(5) DECLCOND(6) DECLCOND(7)
+#define DECLNCOND(j) int32_t c07_ncond_##j(const parsec_taskpool_t *tp, const parsec_assignment_t *l); int32_t c07_xcond_##j(const parsec_taskpool_t *tp, const parsec_assignment_t *l);
+DECLNCOND(0) DECLNCOND(1) DECLNCOND(2) DECLNCOND(3) DECLNCOND(4) DECLNCOND(5) DECLNCOND(6) DECLNCOND(7)
 int32_t c07_gather_nb(const parsec_taskpool_t *tp, const parsec_assignment_t *l);
 parsec_key_t c07_make_key(const parsec_taskpool_t *tp, const parsec_assignment_t *l);
 int c07_key_equal(parsec_key_t a, parsec_key_t b, void *ud);
@@ -58,10 +64,12 @@ int c07_release_local(parsec_execution_stream_t *es, const parsec_task_t *origin
 void c07_release_hashed_dep(const parsec_task_t *task);
 
 static const parsec_expr_op_int32_inline_func_t cond_fn[8] = {c07_cond_0, c07_cond_1, c07_cond_2, c07_cond_3, c07_cond_4, c07_cond_5, c07_cond_6, c07_cond_7};
+static const parsec_expr_op_int32_inline_func_t ncond_fn[8] = {c07_ncond_0, c07_ncond_1, c07_ncond_2, c07_ncond_3, c07_ncond_4, c07_ncond_5, c07_ncond_6, c07_ncond_7};
+static const parsec_expr_op_int32_inline_func_t xcond_fn[8] = {c07_xcond_0, c07_xcond_1, c07_xcond_2, c07_xcond_3, c07_xcond_4, c07_xcond_5, c07_xcond_6, c07_xcond_7};
 
 enum { OP_REL, OP_N };
 static const char *const opnames[] = {"rel"};
-enum { K_DATA_TASK, K_DATA_COLL, K_DATA_TERN_A, K_DATA_TERN_B, K_CTL, K_CTL_COND, K_CTL_MULTI, K_CTL_GATHER, K_WRITE_NEW, K_N };
+enum { K_DATA_TASK, K_DATA_COLL, K_DATA_TERN_A, K_DATA_TERN_B, K_CTL, K_CTL_COND, K_CTL_MULTI, K_CTL_GATHER, K_WRITE_NEW, K_CTL_ALT, K_CTL_ALT3, K_DATA_ALT, K_N };
 enum { PR_READY_MASK, PR_READY_COUNTER, PR_LAST_OVERLAP, PR_FIRST_OVERLAP, PR_READY_NOT_LAST_INVOKED, PR_IN_BITS, PR_GATHER, PR_CTL_MULTI2,
        PR_STATIC_GOAL, PR_HASH_RESIZE, PR_HASH_RECYCLE, PR_INCOMPLETE, PR_RING_MULTI, PR_RELEASERS_GE6, PR_N };
 static const char *const probe_names[] = {
@@ -90,7 +98,7 @@ typedef struct {
     void *deparr[2];
     parsec_flow_t flows[MAXF], oflow;
     parsec_dep_t deps[MAXF][2], odep;
-    parsec_expr_t cond[MAXF], gather;
+    parsec_expr_t cond[MAXF], ncond[MAXF], xcond[MAXF], gather;
     parsec_symbol_t sym[2];
     parsec_key_fn_t keyfns;
     parsec_hash_table_t *ht;
@@ -106,6 +114,7 @@ static ctx_t C;
 
 /* ---- the harness' own evaluation of the synthetic program (independent of the shim) ---- */
 static int m_cond(const c07_tp_t *tp, int j, int k, int m) { return (k + m + tp->salt[j]) & 1; }
+static int m_xcond(const c07_tp_t *tp, int j, int k, int m) { return !m_cond(tp, j, k, m) && ((k ^ (tp->salt[j] >> 1)) & 1); }
 static int m_gather(const c07_tp_t *tp, int k) { int v = (k + tp->gsalt) % 3; return 1 + (v < 0 ? v + 3 : v); }
 static int m_releases(const c07_tp_t *tp, int kind, int j, int k, int m)
 {
@@ -116,6 +125,8 @@ static int m_releases(const c07_tp_t *tp, int kind, int j, int k, int m)
     case K_DATA_TERN_B: return m_cond(tp, j, k, m) ? 0 : 1;
     case K_CTL_MULTI: return m_cond(tp, j, k, m) ? 2 : 1;
     case K_CTL_GATHER: return m_gather(tp, k);
+    case K_CTL_ALT: case K_DATA_ALT: return 1;
+    case K_CTL_ALT3: return m_cond(tp, j, k, m) || m_xcond(tp, j, k, m) ? 1 : 0;
     }
     return 0;
 }
@@ -202,6 +213,8 @@ static void build_program(ctx_t *c, const hx_plan_t *p)
         snprintf(fname[j], sizeof(fname[j]), "F%d", j);
         f->name = fname[j]; f->flow_index = (uint8_t)j; f->sym_type = PARSEC_SYM_IN;
         c->cond[j].op = PARSEC_EXPR_OP_INLINE; c->cond[j].u_expr.v_func.type = PARSEC_RETURN_TYPE_INT32; c->cond[j].u_expr.v_func.func.inline_func_int32 = cond_fn[j];
+        c->ncond[j] = c->cond[j]; c->ncond[j].u_expr.v_func.func.inline_func_int32 = ncond_fn[j];
+        c->xcond[j] = c->cond[j]; c->xcond[j].u_expr.v_func.func.inline_func_int32 = xcond_fn[j];
         parsec_dep_t *d0 = &c->deps[j][0], *d1 = &c->deps[j][1];
         d0->flow = d1->flow = &c->oflow; d0->belongs_to = d1->belongs_to = f; d0->dep_index = (uint8_t)j; d1->dep_index = (uint8_t)j;
         d0->task_class_id = d1->task_class_id = 1;
@@ -215,6 +228,9 @@ static void build_program(ctx_t *c, const hx_plan_t *p)
         case K_CTL_MULTI: f->flow_flags = PARSEC_FLOW_ACCESS_NONE | PARSEC_FLOW_HAS_IN_DEPS; d0->cond = &c->cond[j]; f->dep_in[0] = d0; f->dep_in[1] = d1; break;
         case K_CTL_GATHER: f->flow_flags = PARSEC_FLOW_ACCESS_NONE; d0->ctl_gather_nb = &c->gather; f->dep_in[0] = d0; has_gather = 1; break;
         case K_WRITE_NEW: f->flow_flags = PARSEC_FLOW_ACCESS_WRITE | PARSEC_FLOW_HAS_IN_DEPS; f->sym_type = PARSEC_SYM_OUT; break;
+        case K_CTL_ALT: f->flow_flags = PARSEC_FLOW_ACCESS_NONE | PARSEC_FLOW_HAS_IN_DEPS; d0->cond = &c->cond[j]; d1->cond = &c->ncond[j]; f->dep_in[0] = d0; f->dep_in[1] = d1; break;
+        case K_CTL_ALT3: f->flow_flags = PARSEC_FLOW_ACCESS_NONE | PARSEC_FLOW_HAS_IN_DEPS; d0->cond = &c->cond[j]; d1->cond = &c->xcond[j]; f->dep_in[0] = d0; f->dep_in[1] = d1; break;
+        case K_DATA_ALT: f->flow_flags = PARSEC_FLOW_ACCESS_READ | PARSEC_FLOW_HAS_IN_DEPS; d0->cond = &c->cond[j]; d1->cond = &c->ncond[j]; f->dep_in[0] = d0; f->dep_in[1] = d1; break;
         }
         if (f->flow_flags & PARSEC_FLOW_HAS_IN_DEPS) has_in_in = 1;
         maskgoal |= (parsec_dependency_t)(1 << j);
@@ -284,8 +300,8 @@ static void gen(hx_plan_t *p, hx_rng_t *r)
     for (int j = 0; j < F; j++) {
         int k = (int)hx_below(r, 100), kd;
         if (plain) kd = k < 60 ? K_DATA_TASK : K_CTL;
-        else if (mode == 0) kd = k < 30 ? K_DATA_TASK : k < 42 ? K_DATA_COLL : k < 54 ? K_DATA_TERN_A : k < 64 ? K_DATA_TERN_B : k < 80 ? K_CTL : k < 94 ? K_CTL_COND : K_WRITE_NEW;
-        else kd = k < 26 ? K_DATA_TASK : k < 34 ? K_DATA_COLL : k < 44 ? K_DATA_TERN_A : k < 52 ? K_DATA_TERN_B : k < 64 ? K_CTL : k < 74 ? K_CTL_COND : k < 84 ? K_CTL_MULTI : k < 96 ? K_CTL_GATHER : K_WRITE_NEW;
+        else if (mode == 0) kd = k < 30 ? K_DATA_TASK : k < 42 ? K_DATA_COLL : k < 54 ? K_DATA_TERN_A : k < 64 ? K_DATA_TERN_B : k < 74 ? K_CTL : k < 82 ? K_CTL_COND : k < 88 ? K_CTL_ALT : k < 92 ? K_CTL_ALT3 : k < 96 ? K_DATA_ALT : K_WRITE_NEW;
+        else kd = k < 26 ? K_DATA_TASK : k < 34 ? K_DATA_COLL : k < 44 ? K_DATA_TERN_A : k < 52 ? K_DATA_TERN_B : k < 64 ? K_CTL : k < 70 ? K_CTL_COND : k < 78 ? K_CTL_MULTI : k < 86 ? K_CTL_GATHER : k < 90 ? K_CTL_ALT : k < 93 ? K_CTL_ALT3 : k < 96 ? K_DATA_ALT : K_WRITE_NEW;
         kind[j] = kd;
         tp.salt[j] = (int)hx_below(r, 4);
     }
